@@ -262,13 +262,12 @@ var c01TailDefects = []string{
 }
 
 // c01ReaderStress builds: valid head group(s), a filler of about `size` bytes, a tail group (valid or with one defect).
-func c01ReaderStress(r *rand.Rand, gv *docGen, size int, tailDefect bool) (content, desc string) {
+func c01ReaderStress(r *rand.Rand, gv *docGen, size, kind int, tailDefect bool) (content, desc string) {
 	var b strings.Builder
 	b.WriteString("groups:\n")
 	for _, l := range seqLines([][]string{gv.groupLines(0)}, 0) {
 		b.WriteString(l + "\n")
 	}
-	kind := r.Intn(5)
 	fill := strings.Repeat("x", size)
 	switch kind {
 	case 0:
